@@ -197,7 +197,9 @@ Launch(i) ==    \* setStateAndRun: run-context check, state and Commander.Start(
              /\ S' = ApplyAll(S, << StateEv(P(i), i, IF PC(i).daemon THEN "Launching" ELSE "Running", S.exitCode[P(i)]),
                                     [ev |-> "Launch", p |-> P(i), i |-> i, t |-> ctl.now] >>)
              \* forgetDaemonStopped: a notification left over from an earlier launch is dropped
-             /\ ctl' = [ctl EXCEPT !.ipc[i] = "running", !.left[i] = @ - 1, !.dchan[i] = 0]
+             \* the probes are stopped and started again with every launch: failure counts start afresh
+             /\ ctl' = [ctl EXCEPT !.ipc[i] = "running", !.left[i] = @ - 1, !.dchan[i] = 0,
+                                   !.fails[P(i)] = 0, !.lfails[i] = 0]
           \/ /\ StartFailures
              /\ LET s1 == ApplyAll(S, << StateEv(P(i), i, "Running", S.exitCode[P(i)]),
                                         [ev |-> "StartFail", p |-> P(i), i |-> i, attempt |-> S.inst[i].launches + 1] >>)
@@ -240,7 +242,7 @@ ProbeFail(i) ==   \* the failure_threshold-th consecutive failure is fatal: inte
                                       exit |-> s1.exitCode[P(i)], health |-> "-", restarts |-> s1.restarts[P(i)]],
                                      [ev |-> "Signal", p |-> P(i), i |-> i, sig |-> 15, sinceStopUs |-> -1] >>)
            ELSE S' = s1
-        \* go-health keeps counting across natural restarts; stopping the probes (fatal -> internalStop) resets it
+        \* stopping the probes (fatal -> internalStop) resets the count
         /\ ctl' = [ctl EXCEPT !.fails[P(i)] = IF fatal THEN 0 ELSE n]
 
 Reap(i) ==      \* Wait() returned; setExitCode; a daemon whose launcher returned 0 is now Launched
